@@ -328,8 +328,8 @@ M("C17-angle-searches-cwd", "C17", "src/cppparser/cppPreprocessor.cxx",
   "  if (!angle_quotes && filename.is_regular_file()) {\n    source = CPPFile::S_local;", "  if (filename.is_regular_file()) {\n    source = CPPFile::S_local;",
   expect="R17.1|find_include|probe#0")
 M("C17-system-labelled-local", "C17", "src/cppparser/cppPreprocessor.cxx",
-  "    source = CPPFile::S_system;\n    return true;", "    source = CPPFile::S_alternate;\n    return true;",
-  expect="R17.1|find_include|probe#2")
+  "          filename = match;\n          source = CPPFile::S_system;\n          return true;", "          filename = match;\n          source = CPPFile::S_alternate;\n          return true;",
+  expect="R17.1|find_include|probe#3")
 M("C17-noangles-ignored", "C17", "src/cppparser/cppPreprocessor.cxx",
   "      filename = expr.substr(1, expr.size() - 2);\n      if (!_noangles) {\n        // If _noangles is true, we don't make a distinction between angle\n        // brackets and quote marks--all #include statements are treated the\n        // same, as if they used quote marks.\n        angle_quotes = true;\n      }",
   "      filename = expr.substr(1, expr.size() - 2);\n      angle_quotes = true;",
@@ -2128,3 +2128,35 @@ M("C12-function-count-used-untested", "C12", F_DBX,
   expect="R12.11|InterrogateDatabase::read_new|num_functions|")
 M("C12-benign-alt-name-count-initialised-too", "C12", F_CO,
   "  int num_alt_names;\n  in >> num_alt_names;\n", "  int num_alt_names = 0;\n  in >> num_alt_names;\n", benign=True)
+
+
+# ---- R17.1 after F-C17c (the <> form walks the -S directories itself)
+_ANG = """  if (angle_quotes) {
+    if (!filename.is_local()) {
+      if (filename.is_regular_file()) {
+        source = CPPFile::S_system;
+        return true;
+      }
+    } else {
+      for (size_t dir = 0; dir < _angle_include_path.get_num_directories(); ++dir) {
+        Filename match(_angle_include_path.get_directory(dir), filename);
+        if (match.is_regular_file()) {
+          filename = match;
+          source = CPPFile::S_system;
+          return true;
+        }
+      }
+    }
+  }
+"""
+M("C17-angle-lookup-left-to-DSearchPath-again", "C17", F_PP, _ANG,
+  "  if (angle_quotes && filename.resolve_filename(_angle_include_path)) {\n    source = CPPFile::S_system;\n    return true;\n  }\n",
+  expect="R17.1|find_include|")
+M("C17-angle-name-tried-as-given-even-if-local", "C17", F_PP, _ANG,
+  _ANG.replace("    if (!filename.is_local()) {\n      if (filename.is_regular_file()) {\n        source = CPPFile::S_system;\n        return true;\n      }\n    } else {\n", "    if (filename.is_regular_file()) {\n      source = CPPFile::S_system;\n      return true;\n    }\n    {\n"),
+  expect="R17.1|find_include|probe#2|angle-as-given-only-if-not-local")
+M("C17-angle-directory-satisfies-the-probe", "C17", F_PP, _ANG, _ANG.replace("        if (match.is_regular_file()) {", "        if (match.exists()) {"),
+  expect="R17.7|find_include|probe#3")
+M("C17-angle-directories-walked-backwards", "C17", F_PP, _ANG,
+  _ANG.replace("for (size_t dir = 0; dir < _angle_include_path.get_num_directories(); ++dir) {", "for (size_t dir = _angle_include_path.get_num_directories(); dir-- > 0;) {"),
+  expect="R17.1|find_include|directory-loop")
